@@ -26,6 +26,7 @@ skips = {
     "-r8": {},
     "-r9": {},
     "-r10": {},
+    "-r11": {},
     "-r3": {"C03/m2": "no longer demonstrable: it replaced Ln's last ErrDecimal step and error test by a direct call, losing an error recorded by a trapped Halley step; since the fix 'the inner steps of Sqrt, Ln and Exp are not subject to the caller's exponent range and traps' no step traps for an operand inside the limits; the dropped error test is still reported by C02.R3/C03.R5 (kept in the self-test as exseed_C03_m2_r3)",
             "C12/m2": "no longer demonstrable: same edit as C03-m2-r3 (kept in the self-test as exseed_C12_m2_r3)",
             "C03/m1": "obsolete: it cleared Inexact|Rounded in the traps of Sqrt's working context, which was a copy of the caller's and also made the closing error; since the fix 'the inner steps of Sqrt, Ln and Exp are not subject to the caller's exponent range and traps' the working context is a copy of BaseContext (which traps neither) and the closing goError uses the caller's context, so the edit is behaviour-preserving (kept as the benign variant benign_agent8_C03_m1_r3; it was detected by C03.R4 while it broke the property)"},
